@@ -69,6 +69,10 @@ def rand_entries(rng, valid=False):
         else:
             v = rng.choice([S('yaml_fs'), B(True), I(3), L(S('a'))])
         es.append((k, v))
+    if rng.random() < 0.2:
+        # an unknown entry whose key is not a string (the harness writes the text after U+F8FE as the YAML key of the
+        # config file; for the dict entry point and for the model it is an unknown string key): ignored like any other
+        es.insert(rng.randint(0, len(es)), ('\uf8fe' + rng.choice(['1', '1.5', 'true', '~', '[a]', '{a: 1, b: 2}']), S('legacy')))
     return es
 
 
